@@ -7,7 +7,7 @@ CHECKS = {
  "C02": ("exploration", "Same lattice with PROT_NONE guards flush against every declared readable extent plus explicit-content operands over a small alphabet; every out-of-extent read of the real code faults and is attributed; format strings are operands too: every format up to the length bound over the directive alphabets is handed to the 28 printf/scanf entry points flush against an unmapped page, after its terminator and before its first element.", "guard-page arena + exhaustive lattice enumeration", "C02"),
  "C03": ("exploration", "Every string-producing entry point on a dest with no NUL anywhere, over the full lattice and the violation lattice; termination checked after every return.", "exhaustive lattice enumeration, termination oracle", "C03"),
  "C04": ("exploration", "Every reported failure of every dest-writing entry point over the lattice is checked for an empty dest, no residue of written data, full clearing for the named classes, intact source.", "exhaustive lattice enumeration, clearing oracle", "C04"),
- "C05": ("exploration", "All combinations of generic constraint violations x size lattice with different counting handlers for the str and mem families registered through the public API (they clobber errno, as a logging handler would): the report goes to the function's own family, at most one invocation, code equals return, failure iff invocation, valid calls silent, oversized sizes rejected before any touch of PROT_NONE operands. A client application built from the public headers only (the object size comes from the compiler) is compiled for gcc and clang x optimisation level x _FORTIFY_SOURCE unset/2/3 and must show the same expected outcome for valid calls, null source, zero dmax and dmax above the array, for array, heap and pointer-parameter destinations. The lattice includes counts whose byte size wraps, huge element counts and a dmax above the limit on an object of known size; the printf directive grid is run as a reporting sweep. A second client is generated from the public headers themselves: each of the 93 function-like macros it has argument values for is called with counting arguments (every argument evaluated exactly once, with and without the object sizes known to the compiler) and, for the string functions, with compile-time constant operands whose outcome must equal a call of the exported function with the same operands. A destination of known size zero and a source of known size smaller than slen are part of the lattice; the reporting sweep includes a null %s argument and streams whose error indicator is already set.", "exhaustive violation-lattice enumeration with counting handler", "C05"),
+ "C05": ("exploration", "All combinations of generic constraint violations x size lattice with different counting handlers for the str and mem families registered through the public API (they clobber errno, as a logging handler would): the report goes to the function's own family, at most one invocation, code equals return, failure iff invocation, valid calls silent, oversized sizes rejected before any touch of PROT_NONE operands. A client application built from the public headers only (the object size comes from the compiler) is compiled for gcc and clang x optimisation level x _FORTIFY_SOURCE unset/2/3 and must show the same expected outcome for valid calls, null source, zero dmax and dmax above the array, for array, heap and pointer-parameter destinations. The lattice includes counts whose byte size wraps, huge element counts and a dmax above the limit on an object of known size; the printf directive grid is run as a reporting sweep. A second client is generated from the public headers themselves: each of the 107 function-like macros it has argument values for is called with counting arguments (every argument evaluated exactly once, with and without the object sizes known to the compiler) and, for the string functions, with compile-time constant operands whose outcome must equal a call of the exported function with the same operands. A destination of known size zero and a source of known size smaller than slen are part of the lattice; the reporting sweep includes a null %s argument and streams whose error indicator is already set.", "exhaustive violation-lattice enumeration with counting handler", "C05"),
  "C06": ("exploration", "Destination-writing entry points on all valid operands of the lattice compared element-wise with a small reference model of the standard counterpart; failure demanded where the complete result does not fit; the memmove family additionally over every shift in +-136 bytes x length x alignment against a copy through a temporary. strerror_s/strerrorlen_s are checked for every errno of this libc and every library code, with dmax around the announced length; memccpy_s must store nothing of the source behind the stop character (stop characters outside unsigned char included).", "exhaustive enumeration vs reference model", "C06"),
  "C08": ("exploration", "Slack-nulling entry points x result length x dmax (incl. the 0x20 switch) on a dirty dest in both slack configurations. The string-writing macros of the public headers are compared with the exported functions for constant operands (borrowed from the C05 header client). Sources of known size that hold the remains of an older, longer string behind their terminator are part of the lattice.", "exhaustive enumeration, slack oracle", "C08"),
  "C10": ("exploration", "Query entry points on all operand strings over a small alphabet up to the bound, dmax/slen below/at/above, against reference models of the standard functions on the first dmax elements. The alphabet includes '_' (between the upper- and lower-case letters), operands whose object size is known to the library, and wide folding comparisons over characters whose case folding triples. Element values around the sign bit for the memory comparisons. wcsncmp_s has a reference and an enumerated count; haystacks of 200..300 characters with the needle cut by slen; the query macros of the public headers are compared with the exported functions for literal operands with dmax = strlen and strlen + 1 (borrowed from the C05 header client).", "exhaustive small-alphabet enumeration vs reference model", "C10"),
